@@ -75,6 +75,7 @@ package balancer
 
 //@ func (p *PrioritySelector) weightedSelect
 //@   property C03 C06
+//@   safety
 //@   requires len(endpoints) >= 1
 //@   requires allNonNil(endpoints)
 //@   ensures member(res, endpoints)
